@@ -601,14 +601,14 @@ def explore(
         work: List[Tuple[List[Any], int, List[Any], Optional[World]]] = [([], 0, menu0, root)]
         import time as _time
 
-        t_start = _time.time()
+        t_start = _time.process_time()  # CPU time of this worker: independent of how loaded the machine is
 
         def should_stop() -> bool:
             # a scenario that already produced a violation of the property under check has
             # failed; a time budget that runs out is reported as a cap (never as coverage)
             if stop_prefix and any(k.startswith(stop_prefix) for k in res.violations):
                 return True
-            if time_budget is not None and _time.time() - t_start > time_budget:
+            if time_budget is not None and _time.process_time() - t_start > time_budget:
                 res.capped = True
                 return True
             return False
